@@ -767,6 +767,84 @@ pub fn monitor(tr: &[AStep]) -> Option<usize> {
     None
 }
 
+// ------------------------------------------------------------------ node-table trace (coq/theories/Crash/NodeTable.v)
+
+const PAGE: usize = 8192;
+const I2E_REC: usize = 16;
+
+/// NRec idx / NMeta len / NSync steps of a run, with the number of events consumed.
+/// Meta page: i2e_start at bytes 48..56, i2e_len at 56..64 (layout re-read from pager.rs by
+/// gen/consts_store.py and checked against these literals by the Coq side through Corr/Crash.v).
+pub fn node_table_trace(run: &Run) -> Vec<(String, usize)> {
+    let mut out = vec![];
+    let mut pages: BTreeMap<u64, Vec<u8>> = BTreeMap::new();
+    let mut start: u64 = 0;
+    if let Some((ndb, _)) = &run.init {
+        for (i, ch) in ndb.chunks(PAGE).enumerate() {
+            pages.insert(i as u64, ch.to_vec());
+        }
+        if ndb.len() >= 64 {
+            start = le64(&ndb[48..56]);
+            // seed: records and header already present
+            let len = le64(&ndb[56..64]);
+            for idx in 0..len {
+                out.push((format!("NRec {}", vh::coq_n(idx as u128)), 0));
+            }
+            out.push((format!("NMeta {}", vh::coq_n(len as u128)), 0));
+            out.push(("NSync".to_string(), 0));
+        }
+    }
+    for (i, ev) in run.events.iter().enumerate() {
+        if ev.failed || ev.path != run.ndb_path {
+            continue;
+        }
+        match ev.kind {
+            IoKind::Write if ev.data.len() == PAGE => {
+                let pid = ev.offset / PAGE as u64;
+                if pid == 0 {
+                    start = le64(&ev.data[48..56]);
+                    out.push((format!("NMeta {}", vh::coq_n(le64(&ev.data[56..64]) as u128)), i + 1));
+                } else if start != 0 && pid == start {
+                    let old = pages.get(&pid).cloned().unwrap_or_else(|| vec![0u8; PAGE]);
+                    for slot in 0..(PAGE / I2E_REC) {
+                        let a = &ev.data[slot * I2E_REC..(slot + 1) * I2E_REC];
+                        let b = &old[slot * I2E_REC..(slot + 1) * I2E_REC];
+                        if a != b {
+                            out.push((format!("NRec {}", vh::coq_n(slot as u128)), i + 1));
+                        }
+                    }
+                }
+                pages.insert(pid, ev.data.clone());
+            }
+            IoKind::Sync => out.push(("NSync".to_string(), i + 1)),
+            _ => {}
+        }
+    }
+    out
+}
+
+/// Rust mirror of NodeTable.v's monitor
+pub fn node_table_ok(tr: &[(String, usize)]) -> bool {
+    let (mut recs, mut _len) = (0u64, 0u64);
+    for (s, _) in tr {
+        let num = |s: &str| s.split_whitespace().nth(1).map(|x| x.trim_end_matches("%N").parse::<u64>().unwrap_or(0)).unwrap_or(0);
+        if s.starts_with("NRec") {
+            let idx = num(s);
+            if idx > recs {
+                return false;
+            }
+            recs = recs.max(idx + 1);
+        } else if s.starts_with("NMeta") {
+            let l = num(s);
+            if l > recs {
+                return false;
+            }
+            _len = l;
+        }
+    }
+    true
+}
+
 /// transaction ids that the real log scanner recovers from a log image (None: scan fails)
 pub fn impl_committed_ids(wal: &[u8]) -> Option<Vec<u64>> {
     let d = tempfile::tempdir().unwrap();
